@@ -66,10 +66,19 @@ func (c *Conn) Publish(subject string, payload []byte) error {
 
 // PublishRequest records a message with reply subject.
 func (c *Conn) PublishRequest(subject, reply string, payload []byte) error {
+	p := Pub{Subject: subject, Reply: reply, Data: append([]byte(nil), payload...)}
 	if subject == "" {
+		// nats.go refuses it; the attempt is recorded all the same, so that it can be judged
+		c.mu.Lock()
+		c.Pubs = append(c.Pubs, p)
+		cb := c.OnPub
+		c.cond.Broadcast()
+		c.mu.Unlock()
+		if cb != nil {
+			cb(p)
+		}
 		return errors.New("nats: invalid subject")
 	}
-	p := Pub{Subject: subject, Reply: reply, Data: append([]byte(nil), payload...)}
 	c.mu.Lock()
 	if c.Closed > 0 {
 		c.mu.Unlock()
